@@ -26,6 +26,19 @@ func (c c19ctx) Err() error {
 
 var _ context.Context = c19ctx{}
 
+// c19context: 1 = the stub above, 2 = context.WithCancel run from source, 3 = context.WithTimeout
+// (its timer fires at any scheduling point, like every timer).
+func c19context(kind int) (context.Context, func()) {
+	switch kind {
+	case 2:
+		return context.WithCancel(context.Background())
+	case 3:
+		return context.WithTimeout(context.Background(), time.Second)
+	}
+	c := c19ctx{make(chan struct{})}
+	return c, func() { close(c.done) }
+}
+
 // c19chan: a channel of capacity 0..C holding 0..cap distinct symbolic values.
 func c19chan(v int) (chan int, []int) {
 	c := vChoose("cap", vParam("C")+1)
@@ -75,8 +88,9 @@ func c19count(xs []int, v int) int {
 func VHSend() {
 	v := vInt("v")
 	ch, q := c19chan(v)
-	useCtx := vChoose("ctx", 2) == 1
-	ctx := c19ctx{make(chan struct{})}
+	kind := vChoose("ctx", 4)
+	useCtx := kind != 0
+	ctx, cancel := c19context(kind)
 	timeout := vInt64("timeout")
 	var peerGot []int
 	if vChoose("peer", 2) == 1 {
@@ -85,9 +99,9 @@ func VHSend() {
 	if useCtx {
 		switch vChoose("cancel", 3) {
 		case 1:
-			vGo(func() { close(ctx.done) })
+			vGo(cancel)
 		case 2:
-			close(ctx.done) // cancelled before the call
+			cancel() // cancelled before the call
 		}
 	}
 	returned, res := false, false
@@ -106,6 +120,7 @@ func VHSend() {
 		if !useCtx {
 			vAssert(timeout <= 0, "SendTimeout with a positive timeout always returns")
 		}
+		vAssert(kind != 3, "SendContext returns once the context's deadline has passed")
 		vCover("send: blocked forever (no limit)")
 		return
 	}
@@ -131,8 +146,9 @@ func VHSend() {
 func VHRecv() {
 	v := vInt("v")
 	ch, q := c19chan(v)
-	useCtx := vChoose("ctx", 2) == 1
-	ctx := c19ctx{make(chan struct{})}
+	kind := vChoose("ctx", 4)
+	useCtx := kind != 0
+	ctx, cancel := c19context(kind)
 	timeout := vInt64("timeout")
 	peer := vChoose("peer", 3) // 0 nothing, 1 sends v, 2 closes
 	sent := false
@@ -145,9 +161,9 @@ func VHRecv() {
 	if useCtx {
 		switch vChoose("cancel", 3) {
 		case 1:
-			vGo(func() { close(ctx.done) })
+			vGo(cancel)
 		case 2:
-			close(ctx.done) // cancelled before the call: with a value ready either outcome is allowed
+			cancel() // cancelled before the call: with a value ready either outcome is allowed
 		}
 	}
 	returned, ok, got := false, false, 0
@@ -164,6 +180,7 @@ func VHRecv() {
 		if !useCtx {
 			vAssert(timeout <= 0, "RecvTimeout with a positive timeout always returns")
 		}
+		vAssert(kind != 3, "RecvContext returns once the context's deadline has passed")
 		vAssert(len(q) == 0, "a receive blocks only on an empty channel")
 		vCover("recv: blocked forever (no limit)")
 		return
